@@ -16,6 +16,10 @@ import (
 
 func init() {
 	vcScenarios["C12"] = vcScenC12
+	vcDirected["C12"] = []vcScenario{
+		func(t *vcTrial) { vcRunC12ReleaseVsClose(t, false) },
+		func(t *vcTrial) { vcRunC12ReleaseVsClose(t, true) },
+	}
 }
 
 type vc12Cell struct {
@@ -148,6 +152,10 @@ func (b *vc12Bystander) roundTrip(n int, d time.Duration) error {
 func vcScenC12(t *vcTrial) {
 	r := t.R
 	cells := vc12Cells()
+	if r.intn(25) == 0 {
+		vcRunC12ReleaseVsClose(t, r.chance(50))
+		return
+	}
 	var cell vc12Cell
 	if t.Idx >= 0 {
 		cell = cells[t.Idx%len(cells)]
@@ -566,3 +574,97 @@ func vc12MakeBystander(t *vcTrial, want *FDOperator, seed uint64) *vc12Bystander
 }
 
 func closeFD(fd int) { syscall.Close(fd) }
+
+// vcRunC12ReleaseVsClose: Reader.Release on an empty buffer has taken the operator token when the
+// connection is closed from another goroutine (or by the peer's hang-up followed by a user Close).
+// Neither call may block: the token must come back whatever Release finds, or the teardown
+// (operator.Free waits for it) never completes. Placed with a callback at ReleaseTokenTaken on the
+// releasing goroutine.
+func vcRunC12ReleaseVsClose(t *vcTrial, peerFirst bool) {
+	t.P("variant", "Release holding the operator token when the connection is closed")
+	t.P("peer_hangs_up_first", peerFirst)
+	fds, err := syscall.Socketpair(syscall.AF_UNIX, syscall.SOCK_STREAM, 0)
+	if err != nil {
+		t.Inconclusive("socketpair: %v", err)
+		return
+	}
+	peerOpen := true
+	defer func() {
+		if peerOpen {
+			syscall.Close(fds[1])
+		}
+	}()
+	c, err := NewFDConnection(fds[0])
+	if err != nil {
+		syscall.Close(fds[0])
+		t.Inconclusive("NewFDConnection: %v", err)
+		return
+	}
+	id := vcConnID(c)
+	closeRet := make(chan struct{})
+	var placed int32
+	vcPointCallback.Store(func(pid int, obj uintptr, arg int) {
+		if pid != vpReleaseTokenTaken || obj != id || !atomic.CompareAndSwapInt32(&placed, 0, 1) {
+			return
+		}
+		m := vcTraceMark()
+		if peerFirst {
+			// the poller cannot dispatch the hang-up while Release holds the token: the user's Close
+			// still comes first, the hang-up event is waiting behind it
+			syscall.Close(fds[1])
+			peerOpen = false
+		}
+		go func() { c.Close(); close(closeRet) }()
+		if !vcWaitPoint(m, vpOnCloseWon, id, 2*time.Second) {
+			return
+		}
+		time.Sleep(200 * time.Microsecond)
+		atomic.StoreInt32(&placed, 2)
+	})
+	defer vcPointCallback.Store(func(id int, obj uintptr, arg int) {})
+	relRet := make(chan error, 1)
+	go func() { relRet <- c.Reader().Release() }()
+	select {
+	case <-relRet:
+	case <-time.After(20 * time.Second):
+		if vcRunnerProgress(5, 5*time.Second) {
+			t.Violate("C12", "call_blocks", "Reader.Release() on a connection that was closed while the call held the operator token has not returned after 20 s")
+		} else {
+			t.Inconclusive("Release did not return, canary without progress")
+		}
+		return
+	}
+	if atomic.LoadInt32(&placed) != 2 {
+		select {
+		case <-closeRet:
+		default:
+			c.Close()
+		}
+		t.Inconclusive("the close could not be placed inside Release (placed=%d)", atomic.LoadInt32(&placed))
+		return
+	}
+	select {
+	case <-closeRet:
+	case <-time.After(30 * time.Second):
+		stuck := vcStacksContaining("netpoll.(*connection).Close")
+		if len(stuck) > 0 && vcRunnerProgress(5, 5*time.Second) {
+			t.Violate("C12", "close_blocks", "Close() called while Reader.Release() held the operator token (empty buffer, connection active at its first check) has not returned 30 s after Release returned: the token was not given back and the teardown waits for it for ever")
+			t.P("stuck_stacks", stuck)
+		} else {
+			t.Inconclusive("Close did not return within 30s")
+		}
+		return
+	}
+	// idempotent afterwards
+	func() {
+		defer func() {
+			if p := recover(); p != nil {
+				t.Violate("C12", "panic", "second Close panicked: %v", p)
+			}
+		}()
+		c.Close()
+		c.Reader().Release()
+	}()
+	t.Stat("release_vs_close_placed", 1)
+	t.Nontrivial, t.Sig = true, fmt.Sprintf("release-vs-close|peer=%v", peerFirst)
+}
